@@ -576,7 +576,7 @@ pub fn oligo_sizes(k: usize, delim: &str, header: bool) -> (usize, usize) {
 fn c14_page_boundaries(ctx: &mut Ctx) {
     let mut sh = ctx.shard;
     let mut n_cases = 0u64;
-    for (k, delim) in [(1usize, ""), (1, " "), (2, " "), (3, " "), (3, ","), (2, "::"), (4, "\t"), (5, " "), (7, " ")] {
+    for (k, delim) in [(1usize, ""), (1, " "), (2, " "), (3, " "), (3, ","), (2, "::"), (2, "\u{b7}"), (3, "\u{ff0c}"), (4, "\t"), (5, " "), (7, " ")] {
         for header in [false, true] {
             let (h, row) = oligo_sizes(k, delim, header);
             for n in boundary_counts(h, row, 33_000) {
@@ -609,7 +609,7 @@ pub fn c14(ctx: &mut Ctx) {
     let mut sh = ctx.shard;
     let mut n = 0u64;
     for k in 1..=ctx.pick(5, 6) {
-        for delim in ["", ",", "\t", " ", "::", "<-->"] {
+        for delim in ["", ",", "\t", " ", "::", "<-->", "\u{b7}", "\u{ff0c} "] {
             for header in [false, true] {
                 for r in 0..=ctx.pick(3, 5) {
                     for threads in [1usize, 2, 3, 16] {
@@ -1454,6 +1454,23 @@ pub fn c05_record_set(tag: &str) -> Vec<Vec<u8>> {
             v.extend(gen(4).into_iter().skip(2));
             v
         }
+        // records whose window totals (k = 4) are 2^7 x 5^b and multiples: some frequencies then lie exactly between two
+        // 6-decimal numbers as decimals but not as binary fractions, where two ways of rounding part
+        "decimal-ties" => {
+            let mut v = gen(2);
+            for (i, windows) in [640usize, 1280, 1920, 3200, 6400, 16_000, 80_000, 128, 641].iter().enumerate() {
+                let mut r = crate::iters::long_input(windows + 3, 300 + i as u64);
+                r.iter_mut().for_each(|b| {
+                    if !b"ACGT".contains(b) {
+                        *b = b'C'
+                    }
+                });
+                v.push(r);
+            }
+            v
+        }
+        // enough short records for one batch of more than 32 MiB (2^25 bytes) of output text at k = 5
+        "nine-thousand" => (0..9_000usize).map(|i| crate::files::long_bases(12 + i % 40, i)).collect(),
         // read-like records: irregular lengths of tens to thousands of bases, mixed case, U, several ambiguous bytes
         "reads" => crate::iters::medium_inputs(400),
         // records beyond 100 000 and 1 000 000 bases in the middle and at the end, short ones before and between
@@ -1497,6 +1514,7 @@ fn c05_write_input(dir: &str, records: &[Vec<u8>], container: &str) -> String {
     } else {
         std::fs::write(&path, text).unwrap();
     }
+    crate::vecs::side_cars(&path);
     path
 }
 
@@ -1543,7 +1561,45 @@ fn c05_config(ctx: &mut Ctx, set: &str, records: &[Vec<u8>], k: usize, container
     if let Err((key, which)) = oligo_rows_in_order(&case, &bytes) {
         return viol(ctx, &key, size, format!("{what}: {which}"), argv);
     }
+    // "the output bytes are identical for every thread count, batch limit, writer and container": the first
+    // configuration of (record set, k, header, delimiter) seen by this process is the reference of the later ones
+    {
+        use std::hash::{Hash, Hasher};
+        let mut h = std::collections::hash_map::DefaultHasher::new();
+        bytes.hash(&mut h);
+        let digest = (h.finish(), bytes.len());
+        let key = format!("{set}|{k}|{header}|{}|{}", hex(delim.as_bytes()), records.len());
+        let mut seen = C05_SEEN.lock().unwrap();
+        match seen.get(&key) {
+            None => {
+                seen.insert(key, (digest, argv.clone(), what.clone()));
+            }
+            Some((d0, argv0, what0)) if *d0 != digest => {
+                let mut pair = vec!["case".to_string(), "C05pair".to_string()];
+                pair.extend(argv0[2..].iter().cloned());
+                pair.push("--".into());
+                pair.extend(argv[2..].iter().cloned());
+                let msg = format!("{what}: {} output bytes that differ from the {} bytes of the same records with [{what0}]", bytes.len(), d0.1);
+                drop(seen);
+                return viol(ctx, "bytes-differ-between-configurations", size, msg, pair);
+            }
+            _ => {}
+        }
+    }
     ctx.rep.nontrivial += 1;
+}
+
+static C05_SEEN: std::sync::LazyLock<std::sync::Mutex<BTreeMap<String, ((u64, usize), Vec<String>, String)>>> = std::sync::LazyLock::new(|| std::sync::Mutex::new(BTreeMap::new()));
+
+/// replay of a pair of configurations whose outputs differed
+pub fn replay_c05pair(ctx: &mut Ctx, a: &[String]) {
+    let cut = a.iter().position(|x| x == "--").expect("pair separator");
+    let mut first = vec!["C05cfg".to_string()];
+    first.extend(a[1..cut].iter().cloned());
+    let mut second = vec!["C05cfg".to_string()];
+    second.extend(a[cut + 1..].iter().cloned());
+    replay_c05cfg(ctx, &first);
+    replay_c05cfg(ctx, &second);
 }
 
 pub fn c05_lattice(ctx: &mut Ctx) {
@@ -1562,7 +1618,7 @@ pub fn c05_lattice(ctx: &mut Ctx) {
             for writer in ["mmap", "batch"] {
                 for limit in [1usize, 7, 4 << 30] {
                     for header in [false, true] {
-                        for delim in [" ", "::", ","] {
+                        for delim in [" ", "::", ",", "\u{b7}"] {
                             for threads in [1usize, 3, 16] {
                                 if sh.mine() {
                                     c05_config(ctx, "thirty-seven", &recs, 3, container, threads, limit, writer, header, delim);
@@ -1669,6 +1725,25 @@ pub fn c05_lattice(ctx: &mut Ctx) {
                     c05_config(ctx, "seventy-thousand", &recs[..nrec], 2, "fasta", threads, limit, writer, nrec % 2 == 1, " ");
                     n += 1;
                 }
+            }
+        }
+    }
+    // the text of ONE batch beyond 2^25 bytes, with and without a header line before it
+    {
+        let recs = c05_record_set("nine-thousand");
+        for (writer, threads, header, delim) in [("batch", 4usize, true, ","), ("batch", 1, false, " "), ("mmap", 3, true, ",")] {
+            if sh.mine() {
+                c05_config(ctx, "nine-thousand", &recs, 5, "fasta", threads, 4 << 30, writer, header, delim);
+                n += 1;
+            }
+        }
+    }
+    {
+        let recs = c05_record_set("decimal-ties");
+        for (writer, threads, container) in [("batch", 1usize, "fasta"), ("mmap", 1, "fasta"), ("mmap", 4, "fasta-w60"), ("batch", 5, "fastq"), ("mmap", 2, "fasta-gz")] {
+            if sh.mine() {
+                c05_config(ctx, "decimal-ties", &recs, 4, container, threads, 4 << 30, writer, false, " ");
+                n += 1;
             }
         }
     }
